@@ -152,7 +152,7 @@ func main() {
 			continue
 		}
 		// fresh obligation list per property, shared program
-		c = &Ctx{RepoDir: c0.RepoDir, Pkgs: c0.Pkgs, byPath: c0.byPath, Prog: c0.Prog, Fset: c0.Fset, SrcFns: c0.SrcFns,
+		c = &Ctx{Mod: c0.Mod, GuardSpecs: c0.GuardSpecs, RepoDir: c0.RepoDir, Pkgs: c0.Pkgs, byPath: c0.byPath, Prog: c0.Prog, Fset: c0.Fset, SrcFns: c0.SrcFns,
 			ruleDocs: map[string]string{}, ruleMin: map[string]int{}, idx: c0.idx, lockA: c0.lockA}
 		if c.lockA != nil {
 			c.lockA.c = c
